@@ -2779,14 +2779,16 @@ func (ir *iteratorRecord) iterate(step func(Value)) {
 			break
 		}
 		value := iteratorValue(res)
-		ret := tryFunc(func() {
+		// vm.try lets uncatchable exceptions (interrupt, stack overflow) and Go runtime panics pass through:
+		// no script code (return()) may run after them, and they must not be swallowed if raised inside return()
+		ex := r.vm.try(func() {
 			step(value)
 		})
-		if ret != nil {
-			_ = tryFunc(func() {
+		if ex != nil {
+			_ = r.vm.try(func() {
 				ir.returnIter()
 			})
-			panic(ret)
+			panic(ex)
 		}
 	}
 }
